@@ -5,6 +5,7 @@ import (
 	"testing"
 
 	"github.com/lightninglabs/neutrino/internal/verifdetrt"
+	"github.com/lightninglabs/neutrino/internal/verifldep"
 )
 
 // TestVFXBurst checks the scheduler and select deviations of the determinised
@@ -75,5 +76,78 @@ func TestVFXBurst(t *testing.T) {
 	t.Logf("select deviation: %s", o)
 	if o == base {
 		t.Fatalf("the select deviation changed nothing")
+	}
+}
+
+// TestVFXBurstSync checks the preemption at synchronisation points: a
+// check-then-act window after a mutex unlock (two callers both see the other's
+// update and both skip their action) and a goroutine that runs before the
+// statement after its go statement are only reachable with such a preemption,
+// are reached by one, and identically twice.
+func TestVFXBurstSync(t *testing.T) {
+	if !verifdetrt.On {
+		t.Skip("stock runtime")
+	}
+	run := func(at int, mask uint32) (out string, n int) {
+		Run(t, func() {
+			var mu verifldep.Mutex
+			queue, signals := 0, 0
+			enqueue := func() {
+				mu.Lock()
+				queue++
+				mu.Unlock()
+				// unlocked check-then-act
+				if queue == 1 {
+					signals++
+				}
+			}
+			recorded := false
+			sweepSaw := false
+			start := make(chan struct{})
+			for i := 0; i < 2; i++ {
+				go func() {
+					<-start
+					enqueue()
+				}()
+			}
+			go func() {
+				<-start
+				go func() { sweepSaw = recorded }()
+				recorded = true
+			}()
+			Wait()
+			verifdetrt.SetSync(at, mask)
+			close(start)
+			Wait()
+			n = verifdetrt.SyncCount()
+			verifdetrt.SetSync(0, 0)
+			out = fmt.Sprintf("signals=%d sweepSawRecord=%v", signals, sweepSaw)
+		})
+		return
+	}
+	all := uint32(verifdetrt.SyncMutex | verifdetrt.SyncSpawn | verifdetrt.SyncChan)
+	base, n := run(0, all)
+	t.Logf("default: %s (%d synchronisation points)", base, n)
+	if base != "signals=1 sweepSawRecord=true" || n < 3 {
+		t.Fatalf("unexpected default outcome %q with %d points", base, n)
+	}
+	seen := map[string]bool{}
+	for d := 1; d <= n; d++ {
+		o1, _ := run(d, all)
+		o2, _ := run(d, all)
+		if o1 != o2 {
+			t.Fatalf("preemption at point %d not deterministic: %q vs %q", d, o1, o2)
+		}
+		seen[o1] = true
+		t.Logf("preemption at point %d: %s", d, o1)
+	}
+	if !seen["signals=0 sweepSawRecord=true"] {
+		t.Fatalf("no preemption produced the lost signal")
+	}
+	if !seen["signals=1 sweepSawRecord=false"] {
+		t.Fatalf("no preemption let the new goroutine run before the statement after its go statement")
+	}
+	if _, k := run(0, 0); k != 0 {
+		t.Fatalf("points counted with an empty class mask")
 	}
 }
